@@ -22,11 +22,15 @@ def mk(n, *b):
     return InterfaceClass(n, b or (Interface,), {'__module__': wmod()})
 
 
+CALLS = []
+
+
 class F:
     def __init__(s, tag):
         s.tag = tag
 
     def __call__(s, *obs):
+        CALLS.append(s.tag)
         return (s.tag,) + tuple(type(o).__name__ for o in obs)
 
     def __repr__(s):
@@ -42,6 +46,8 @@ def build(flavour):
     W['X'] = mk('X')
     W['P'] = mk('P')
     W['P1'] = mk('P1', W['P'])
+    W['Y'] = mk('Y')
+    W['Y1'] = mk('Y1', W['Y'])       # second position of a multi-adapter key
     K = type('K', (), {})
     classImplements(K, W['R0'])
     W['K'] = K
@@ -52,18 +58,25 @@ def build(flavour):
     W['top'] = cls()
     W['base'] = cls()
     W['reg'] = cls((W['base'],))
-    for t in 'abcde':
+    for t in 'abcdehg':
         W['f' + t] = F(t)
+    W['NONE'] = None               # provided=None: handlers
     return W
 
 
 MUT = []
-for rg in ('reg', 'base', 'top'):
+# the third registry only becomes a base through regbases: four ops are enough there
+MUT += [('register', 'top', ('R0',), 'P', '', 'fa'), ('unregister', 'top', ('R0',), 'P', ''),
+        ('subscribe', 'top', ('R0',), 'P', 'fd'), ('unsubscribe', 'top', ('R0',), 'P', 'fd')]
+for rg in ('reg', 'base'):
     MUT += [('register', rg, ('R0',), 'P', '', 'fa'), ('register', rg, ('R1',), 'P1', '', 'fb'),
             ('register', rg, ('X',), 'P', '', 'fe'), ('register', rg, ('R0',), 'P', 'n', 'fc'),
             ('unregister', rg, ('R0',), 'P', ''), ('unregister', rg, ('R1',), 'P1', ''),
             ('subscribe', rg, ('R0',), 'P', 'fd'), ('subscribe', rg, ('X',), 'P', 'fe'),
             ('unsubscribe', rg, ('R0',), 'P', 'fd'), ('unsubscribe', rg, ('R0',), 'P', None)]
+for rg in ('reg', 'base'):
+    MUT += [('subscribe', rg, ('R0',), 'NONE', 'fh'), ('unsubscribe', rg, ('R0',), 'NONE', 'fh')]
+MUT += [('register', 'reg', ('R0', 'Y'), 'P', '', 'fg'), ('ibases', 'Y1', ()), ('ibases', 'Y1', ('Y',))]
 MUT += [('regbases', 'reg', ()), ('regbases', 'reg', ('base',)), ('regbases', 'reg', ('top',)),
         ('regbases', 'base', ('top',)), ('regbases', 'base', ())]
 MUT += [('ibases', 'R1', ('R0',)), ('ibases', 'R1', ()), ('ibases', 'R1', ('X',)),
@@ -76,9 +89,11 @@ for key in (('R1',), ('R0',), ('D',), ('SK',)):
     LOOK += [('lookup', key, 'P', ''), ('lookup1', key, 'P', ''), ('lookupAll', key, 'P'),
              ('names', key, 'P'), ('subscriptions', key, 'P')]
 LOOK += [('lookup', ('R1',), 'P', 'n'), ('lookup', ('R1', 'R0'), 'P', ''),
+         ('lookup', ('R1', 'Y1'), 'P', ''), ('lookupAll', ('R1', 'Y1'), 'P'),
          ('queryAdapter', 'ob', 'P', ''), ('adapter_hook', 'ob', 'P', ''),
          ('queryMultiAdapter', 'ob', 'P', ''), ('subscribers', 'ob', 'P'),
-         ('queryAdapter', 'ob2', 'P', ''), ('adapter_hook', 'ob', 'P1', '')]
+         ('queryAdapter', 'ob2', 'P', ''), ('adapter_hook', 'ob', 'P1', ''),
+         ('subscriptions', ('R1',), 'NONE'), ('subscribers', 'ob', 'NONE')]
 LOOKSET = set(LOOK)
 
 
@@ -157,7 +172,9 @@ def do_look(W, op):
     if t == 'queryMultiAdapter':
         return norm(r.queryMultiAdapter([W[op[1]]], W[op[2]], op[3]))
     if t == 'subscribers':
-        return norm(r.subscribers([W[op[1]]], W[op[2]]))
+        del CALLS[:]
+        res = norm(r.subscribers([W[op[1]]], W[op[2]]))
+        return (res, tuple(CALLS))    # handlers return nothing: what was called is the answer
 
 
 def run_hist(flavour, h, stats=None):
@@ -194,28 +211,30 @@ def same_family(l1, l2):
 
 
 def histories(shape, part, nparts):
-    """shape: string over L, M, W (warm everything), l (lookup of the same
-    family as the first lookup). Deterministic enumeration, sliced."""
-    pools = []
-    for c in shape:
-        pools.append(LOOK if c in 'Lls' else MUT if c == 'M' else [('WARM',)])
+    """shape: string over L, M, W (warm everything), l (a lookup of the same
+    family as the first lookup), s (the same lookup as the first one).
+    Deterministic enumeration, sliced."""
     first_l = shape.find('L')
+    free = [i for i, c in enumerate(shape) if c != 's']
+    pools = [LOOK if shape[i] in 'Ll' else MUT if shape[i] == 'M' else [('WARM',)]
+             for i in free]
     n = -1
-    for h in itertools.product(*pools):
-        if 'l' in shape or 's' in shape:
-            ok = True
-            for i, c in enumerate(shape):
-                if c == 'l' and not same_family(h[first_l], h[i]):
-                    ok = False
-                    break
-                if c == 's' and h[first_l] != h[i]:
-                    ok = False
-                    break
-            if not ok:
-                continue
+    for combo in itertools.product(*pools):
+        h = [None] * len(shape)
+        for i, v in zip(free, combo):
+            h[i] = v
+        ok = True
+        for i, c in enumerate(shape):
+            if c == 's':
+                h[i] = h[first_l]
+            elif c == 'l' and not same_family(h[first_l], h[i]):
+                ok = False
+                break
+        if not ok:
+            continue
         n += 1
         if n % nparts == part:
-            yield h
+            yield tuple(h)
 
 
 def evaluate(arg):
